@@ -450,6 +450,10 @@ func parseRealms(lines []string) (realms []Realm, err error) {
 			}
 			c--
 			if c == 0 {
+				if start == i {
+					// "REALM = { ... }" on one line: the relations of a block start on the line after the bracket
+					return nil, fmt.Errorf("realm configuration line invalid: %s", l)
+				}
 				var r Realm
 				e := r.parseLines(name, lines[start+1:i])
 				if e != nil {
